@@ -83,7 +83,23 @@ def err_class(e: BaseException) -> int:
 # ---------------------------------------------------------------------------
 # mappers of the harness (callback style and derived-class style)
 # ---------------------------------------------------------------------------
+def fs_obj(spec):
+    """f:<name>:<size>:<mdate>  |  D:<name>"""
+    from nutree.fs import FileSystemEntry
+    k, _, rest = spec.partition(":")
+    if k == "D":
+        return FileSystemEntry(rest, is_dir=True)
+    name, size, mdate = rest.split(":")
+    return FileSystemEntry(name, size=int(size), mdate=float(mdate))
+
+
+def is_fs_entry(o):
+    return type(o).__name__ == "FileSystemEntry"
+
+
 def tag_val(o):
+    if is_fs_entry(o):
+        return "F", [o.name, o.is_dir, o.size, o.mdate]
     if isinstance(o, H.EqObj):
         return "e", o.v
     if isinstance(o, H.PlainObj):
@@ -102,6 +118,8 @@ def tag_val(o):
 
 
 def payload_of(o) -> dict:
+    if is_fs_entry(o):      # what FileSystemTree.serialize_mapper adds (fs.py)
+        return {"n": o.name, "d": True} if o.is_dir else {"n": o.name, "s": o.size, "m": o.mdate}
     t, v = tag_val(o)
     return {"t": t, "v": v, "n": f"{o}"}
 
@@ -137,6 +155,7 @@ def deser_mapper(parent, data):
 
 
 CUSTOM_KM = {"t": "T", "v": "V", "str": "S", "data_id": "#", "kind": "K", "unused": "u"}
+CUSTOM_KM_FS = {"n": "nm", "m": "mt", "unused": "u"}
 CUSTOM_VM = {"t": ["e", "p", "i", "t", "d", "w"]}
 CUSTOM_VM_TYPED = {"t": ["w", "d", "t", "i", "p", "e"], "kind": ["zz", "c", "b", "a", "child"]}
 
@@ -171,8 +190,14 @@ def base_class(typed):
 
 def build_tree(desc):
     """like build.build, but the tree class may be the derived one"""
-    U = B.make_universe(desc["univ"])
     typed = bool(desc.get("typed"))
+    if desc.get("mapper") == "fs":
+        from nutree.fs import FileSystemTree
+        U = H.Universe([fs_obj(sp) for sp in desc["univ"]])
+        t = FileSystemTree("T")
+        B.add_nodes(t._root, desc["nodes"], U, False)
+        return t, U
+    U = B.make_universe(desc["univ"])
     if desc.get("mapper") == "derived":
         cls = derived_class(typed, desc.get("calc"))
     else:
@@ -193,6 +218,18 @@ def resolve_opts(desc):
         skw["mapper"] = ser_mapper
         lkw["mapper"] = deser_mapper
     cls = derived_class(typed, desc.get("calc")) if ms == "derived" else base_class(typed)
+    if ms == "fs":
+        from nutree.fs import FileSystemTree
+        cls = FileSystemTree
+        if km == "false":
+            skw["key_map"] = False
+        elif km == "custom":
+            skw["key_map"] = dict(CUSTOM_KM_FS)
+        if vm == "false":
+            skw["value_map"] = False
+        if desc.get("meta"):
+            skw["meta"] = dict(desc["meta"])
+        return skw, lkw, cls
     custom_vm = CUSTOM_VM_TYPED if typed else CUSTOM_VM
     if km == "false":
         skw["key_map"] = False
@@ -216,6 +253,8 @@ def doc_maps(desc, root):
     ms = desc.get("mapper", "cb")
     km, vm = desc.get("km", "true"), desc.get("vm", "true")
     custom_vm = CUSTOM_VM_TYPED if typed else CUSTOM_VM
+    if ms == "fs":      # FileSystemTree.DEFAULT_KEY_MAP = {}, no value map
+        return ({} if km != "custom" else dict(CUSTOM_KM_FS)), {}
     if km == "false":
         kmap = {}
     elif km == "custom" or ms == "derived":
@@ -316,18 +355,29 @@ def obs_loaded_tree(tree):
     return [go(c) for c in (tree._root._children or [])], hashes
 
 
-def coq_lenv(typed, ms, strings, hashes) -> str:
-    cls = "CTyped" if typed else "CPlain"
-    m = {"none": "MNone", "cb": "MHarness", "derived": "MHarness", "doc": "MDoc"}[ms]
+def loaded_names(tree):
+    """(creation rank, str(data)) of every node of a loaded tree"""
+    order = sorted(B.all_nodes(tree._root), key=H.nid)
+    return [(i + 1, f"{n._data}") for i, n in enumerate(order)]
+
+
+def coq_lenv(typed, ms, strings, hashes, names=()) -> str:
+    cls = "CFs" if ms == "fs" else "CTyped" if typed else "CPlain"
+    m = {"none": "MNone", "cb": "MHarness", "derived": "MHarness", "doc": "MDoc", "fs": "MFs"}[ms]
+    nm = H.coq_list(f"({r}, {H.coq_text(n)})" for r, n in names)
     sh = H.coq_list(f"({H.coq_text(s)}, {H.z(hash(s))})" for s in sorted(strings))
     hs = H.coq_list(f"({r}, {H.z(h)})" for r, h in hashes)
-    return f"(LE {cls} {m} {sh} {hs})"
+    return f"(LE {cls} {m} {sh} {hs} {nm})"
 
 
 def coq_kopt(desc) -> str:
     km = desc.get("km", "true")
     if km == "false":
         return "KFalse"
+    if desc.get("mapper") == "fs":
+        if km != "custom":
+            return "KTrue"
+        return "(KCustom " + H.coq_list(f"({H.coq_text(k)}, {H.coq_text(v)})" for k, v in CUSTOM_KM_FS.items()) + ")"
     if km == "custom" or desc.get("mapper") == "derived":
         return "(KCustom " + H.coq_list(f"({H.coq_text(k)}, {H.coq_text(v)})" for k, v in CUSTOM_KM.items()) + ")"
     return "KTrue"
@@ -339,6 +389,8 @@ def coq_vopt(desc) -> str:
     custom_vm = CUSTOM_VM_TYPED if typed else CUSTOM_VM
     if vm == "false":
         return "VFalse"
+    if desc.get("mapper") == "fs":
+        return "VTrue"
     if vm == "custom_nokind":
         m = {"t": custom_vm["t"]}
     elif vm == "custom" or desc.get("mapper") == "derived":
@@ -350,9 +402,9 @@ def coq_vopt(desc) -> str:
 
 def coq_sopts(desc, tree, U) -> str:
     typed = bool(desc.get("typed"))
-    cls = "CTyped" if typed else "CPlain"
     ms = desc.get("mapper", "cb")
-    m = {"none": "MNone", "cb": "MHarness", "derived": "MHarness"}[ms]
+    cls = "CFs" if ms == "fs" else "CTyped" if typed else "CPlain"
+    m = {"none": "MNone", "cb": "MHarness", "derived": "MHarness", "fs": "MFs"}[ms]
     pl = []
     seen = set()
     for n in B.all_nodes(tree._root):
@@ -382,7 +434,7 @@ def id_stable(n) -> bool:
     d = n._data
     if n._data_id != hash(d):
         return True
-    return not isinstance(d, (H.PlainObj, DictWrapper))
+    return not (isinstance(d, (H.PlainObj, DictWrapper)) or is_fs_entry(d))
 
 
 def ids_consistent(root) -> bool:
